@@ -15,7 +15,7 @@ TRUSTED = ['correspondence harness (pv.engine, pv.proto) and generators of pv.pr
 ASSUMPTIONS = ['CPython: str(type(x)) names, native < on str/float/datetime/bool, sorted() is a stable sort determined by its comparison outcomes',
                'numpy numbers / bools / datetime.date are normalised by as_primitive to the python values the wire format identifies them with; '
                'pd.Timestamp and np.str_ are NOT normalised (as_primitive keeps them): they have their own wire spellings TS: / NS: so that the '
-               'implementation sees the real objects; the model reads TS: as the datetime cell (cmp ranks a Timestamp with the datetimes since fix 0aa1132); np.str_ has no model cell '
+               'implementation sees the real objects; the model reads TS: as the datetime cell (cmp ranks a Timestamp with the datetimes since fix 7a44481); np.str_ has no model cell '
                '(cmp ranks it apart from str, pinned by the repository test_cmp) and takes part in the implementation-only laws',
                'the op `native` compares the as_primitive images natively (these are the values sort() hands to sorted() as keys)',
                'object identity (x is y shortcut) is not modelled; fresh and shared NaN objects are both generated']
